@@ -715,3 +715,9 @@ def oracle(lines, impl):
 # into lean/Compute/Generated/SrcC17.lean and proved equal to the hand model in Props/SrcTieC17.lean)
 from . import srctie
 srctie.wire(globals(), 'C17')
+
+# --- deep theorems (Rounding3)
+PROOF_MODULES = PROOF_MODULES + ['Compute.Lemmas.LogRounding', 'Compute.Props.Rounding3']
+REQUIRED_THEOREMS = REQUIRED_THEOREMS + ['Cv.Rounding3.softmax_sum_error', 'Cv.Rounding3.softmax_entry_near', 'Cv.Rounding3.logistic_error', 'Cv.Rounding3.logistic_range', 'Cv.Rounding3.f64_softmax_note', 'Cv.Rounding3.f64_logistic_note']
+NOT_PROVED = [x for x in NOT_PROVED if not any(k in str(x) for k in ('floating-point rounding of the transforms',))]
+NOT_PROVED = NOT_PROVED + ['rounding of logit and Box-Cox (oracle only); for softmax and logistic the float-level claims ARE proved in the standard model with libm exp/ln of relative error <= u_f (Props/Rounding3): every computed softmax entry > 0 and |sum - 1| <= gamma_(n+1), entries within an explicit factor of the exact ones, logistic in (0,1] with relative error <= gamma_2 + gamma^f_1']
